@@ -40,6 +40,35 @@ Definition fi_size (kind : Z) (s : sk) : Z :=
 Definition hdr_ok (pl sv fam lgmax lgcur : Z) (empty : bool) : bool :=
   (pl =? (if empty then 1 else 4)) && (sv =? 1) && (fam =? 10) && (lgcur <=? lgmax) && (3 <=? lgcur).
 
+(* FiDefs.de_items with the string length tested against the remaining bytes BEFORE it is used (as serde<std::string> does);
+   same function (FiCodecProofs.de_items_g_eq), but no unary number is built from an unchecked field *)
+Fixpoint de_items_g (kind : Z) (n : nat) (l : list Z) : option (list item * list Z) :=
+  match n with
+  | O => Some ([], l)
+  | S k =>
+      if kind =? 2 then
+        match split_at 4 l with
+        | None => None
+        | Some (lb, r) =>
+            if Z.of_nat (length r) <? le_dec lb then None else
+            match split_at (Z.to_nat (le_dec lb)) r with
+            | None => None
+            | Some (x, r2) => match de_items_g kind k r2 with
+                              | None => None
+                              | Some (xs, r3) => Some (x :: xs, r3)
+                              end
+            end
+        end
+      else
+        match split_at 8 l with
+        | None => None
+        | Some (b, r) => match de_items_g kind k r with
+                         | None => None
+                         | Some (xs, r3) => Some ([le_dec b] :: xs, r3)
+                         end
+        end
+  end.
+
 Definition fi_dec (kind : Z) (bs : list Z) : option (sk * nat) :=
   match bs with
   | pl :: sv :: fam :: lgmax :: lgcur :: flags :: _ :: _ :: rest =>
@@ -51,9 +80,11 @@ Definition fi_dec (kind : Z) (bs : list Z) : option (sk * nat) :=
       match split_at 4 r1 with None => None | Some (_, r2) =>
       match split_at 8 r2 with None => None | Some (tb, r3) =>
       match split_at 8 r3 with None => None | Some (ob, r4) =>
+      (* ensure_minimum_memory(size, 32 + 8 * num_items) / the stream runs dry: the count is tested before it is used *)
+      if Z.of_nat (length r4) <? 8 * le_dec nb then None else
       let n := Z.to_nat (le_dec nb) in
       match de_weights n r4 with None => None | Some (ws, r5) =>
-      match de_items kind n r5 with None => None | Some (xs, r6) =>
+      match de_items_g kind n r5 with None => None | Some (xs, r6) =>
         let ws' := map (sgn64 kind) ws in
         if existsb (fun w => w <? 0) ws' then None else
         let s1 := fold_left (fun s xw => upd kind s (fst xw) (snd xw)) (combine xs ws') s0 in
@@ -70,6 +101,7 @@ Definition fi_dec_stream (kind : Z) (bs : list Z) : option (sk * nat) := fi_dec 
    1 r kind lg_max lg_start { w len item.. }  build by updates; R = image bytes
    5 r path cut pos val ntrail              mangled image of r through reader path 0 (bytes) / 1 (stream)
    6 r path { w len item.. }                read the image back, same updates on the original and the restored sketch; R = both
+   7 r path                                 read the image back and serialize the restored sketch; R = 1, its image
    3 kind byte.. / 4 kind byte..            explicit image through the bytes / stream reader
    decoded sketch: 1 [used] lg_max lg_cur total offset n, then per counter sorted by item: len item.. w *)
 Fixpoint parse_updates (fuel : nat) (t : line) : list (item * Z) :=
@@ -127,6 +159,15 @@ Definition step (st : cregs) (o e : line) : cregs * outline :=
             | None => (st, (refused, []))
             end
         | _, _ => (st, (refused, []))
+        end
+      else if opc =? 7 then
+        match reg_get st r with
+        | Some (kind, s) =>
+            match fi_dec kind (fi_enc kind s) with
+            | Some (s', _) => (st, (1 :: fi_enc kind s', []))
+            | None => (st, (refused, []))
+            end
+        | None => (st, (refused, []))
         end
       else if opc =? 3 then (st, (show_dec r 0 rest, []))
       else if opc =? 4 then (st, (show_dec r 1 rest, []))
